@@ -36,8 +36,14 @@ Decided structurally (clauses that are necessary for the property; the rendered 
 * depth   - indentation multiplied by a value read off the printed task alone (`len(task.all_parents)`, a helper that
             only receives the task) is refuted: the level is relative to the printed tasks and only the recursion knows it.
 
-Not decided (exit 2): an anchored private helper (`__get_linked_task_id`, `__get_linked_tasks_id`, `__get_field_value`,
-`__print_task_subtree`, `colored_text`) that is renamed or moved to module level - the anchors are looked up by name;
+The two link helpers are found by name or, when they were moved / renamed, through the calls `X(t, t.predecessors)` in
+__get_field_value and `Y(task, linked)` in X; when the normaliser folded the one-id helper (or the list helper) into its
+callers, the inlined expressions are judged in place.  Field names must be resolved against `t.__dict__` / `vars(t)`:
+hasattr / getattr-with-default also find properties and methods of Task and are refuted.  A text transformed inside
+colored_text before padding (replace / expandtabs / strip) is refuted when it can get longer than what the widths measured
+or loses leading spaces; capped day counts (`range(min(n, K))`, `while d <= last and i < K`) are refuted.
+Not decided (exit 2): `__get_field_value`, `colored_text`, `_TextTableRow.repr`, `TextTable.text_repr` renamed or moved -
+the anchors are looked up by name;
 day generators with break/return/conditional yields; name lookups guarded by try/except or by a package helper.
 Not decided: multi-line cell texts, display width of non-ASCII text, the actual strings (str() of attribute values),
 whether `fields` is a re-iterable collection, colour themes (only that colour codes wrap the padded text).
@@ -2076,14 +2082,9 @@ def _links(ctx):
                 "predecessors / successors columns list one linked id per element of t.predecessors / t.successors in order, "
                 "the parent column prints the id of t.parent, all relative to the printed task", floor=5)
 
-    def one(o):
-        f = prog.func(LINK_ONE)
-        tp, lp = f.params[0], f.params[1]
-        cfg = cfg_of(f)
-        ex = Expander(prog, f, ctx.typer)
-
+    def atoms_for(tp, lp):
         def is_none_atom(t, pol):
-            c = cmp_oriented(t, pol, lambda x: isinstance(x, ast.Name) and x.id == lp)
+            c = cmp_oriented(t, pol, lambda x: bool(match(lp, x)))
             if c and isinstance(c[2], ast.Constant) and c[2].value is None and c[1] in ('is', '==', 'isnot', '!='):
                 return c[1] in ('is', '==')
             return None
@@ -2105,9 +2106,90 @@ def _links(ctx):
                 if op in ('==', 'is'):
                     return False
             return None
+        return is_none_atom, is_sentinel_atom, ne_atom
 
-        guards = {'none': False, 'sentinel': False}
-        seen = {'ext': 0, 'int': 0}
+    def link_expr(o, f, r, v, conds0, tp, lp, st):
+        """one expression v (already expanded) that prints the link lp of task tp, evaluated under conds0, at statement r"""
+        is_none_atom, is_sentinel_atom, ne_atom = atoms_for(tp, lp)
+        for cs, parts in cases_of(v):
+            conds = conds0 + cs
+            if not parts:
+                for t, p in conds:
+                    for a, ap in split_disj(t, p):
+                        if is_none_atom(a, ap) is True:
+                            st['none'] = r
+                        if is_sentinel_atom(a, ap) is True:
+                            st['sentinel'] = r
+                continue
+            head = parts[0]
+            m = match("str($x)", head)
+            if m:
+                head = m['x']
+            if match(f"{tp}.id", head):
+                o.refute(f, r, parts[0], f"the column prints `{src(head)}` - the id of the printed task itself, not of the linked task")
+                continue
+            if not match(f"{lp}.id", head):
+                o.undecided(f, r, r, f"returned text `{src(v)[:80]}` does not start with the linked task's id")
+                continue
+            tail = [const_str(p) for p in parts[1:]]
+            if any(x is None for x in tail):
+                o.undecided(f, r, r, f"returned text `{src(v)[:80]}` has non-constant parts after the id")
+                continue
+            marker = ''.join(tail)
+            if marker not in ('', '(external)'):
+                o.refute(f, r, marker, f"the id is followed by {marker!r}; expected '(external)' or nothing")
+                continue
+            atoms = []
+            for t, p in conds:
+                atoms += facts.split_conj(t, p)
+            rest = [(a, p) for a, p in atoms if is_none_atom(a, p) is not False and is_sentinel_atom(a, p) is not False]
+            nes = [ne_atom(a, p) for a, p in rest]
+            others = [(a, p) for (a, p), n in zip(rest, nes) if n is None]
+            ctext = ' and '.join(facts.cond_texts(rest)) or 'always'
+            want = marker == '(external)'
+            kind = 'ext' if want else 'int'
+            if others or not nes or any(n is not want for n in nes):
+                exp = f"{lp}.wbs != {tp}.wbs" if want else f"{lp}.wbs == {tp}.wbs"
+                what = "with the '(external)' marker" if want else "without the '(external)' marker"
+                extra = (" (additional condition: " + ', '.join(facts.cond_texts(others)) + ")") if others and any(n is want for n in nes) else ''
+                o.refute(f, r, f"{kind}: {ctext}", f"the linked id is printed {what} under `{ctext}`{extra}; expected exactly `{exp}`")
+                st[kind] += 1
+                continue
+            st[kind] += 1
+            o.site(f, r, f"{'id(external)' if want else 'id'} under {ctext}")
+
+    def link_finish(o, f, r, lp, st):
+        if not st['ext'] and st['int']:
+            o.refute(f, r, 'no marker', "no return path appends '(external)': links that leave the WBS are not marked")
+        if not st['int'] and st['ext']:
+            o.refute(f, r, 'always marker', "no return path prints the bare id: links inside the WBS are marked as external")
+        if not st['ext'] and not st['int'] and not o.unknown and not o.refuted:
+            o.undecided(f, r, 'linked id', "no return of the linked id found")
+        if st['none']:
+            o.site(f, st['none'], "'' for a None link")
+        elif not o.unknown:
+            o.refute(f, r, 'None link', f"no `return ''` guarded by `{lp} is None`: a task without parent cannot be printed")
+        if st['sentinel']:
+            o.site(f, st['sentinel'], "'' for the sentinel (EMPTY_TASK_ID) parent")
+        elif not o.unknown:
+            o.refute(f, r, 'sentinel link', f"no `return ''` guarded by `{lp}.id == EMPTY_TASK_ID`: the hidden WBS root is printed as a parent id")
+
+    def one(o):
+        H = _link_helpers(ctx)
+        if H['one'] is None:
+            if not H['inline']:
+                fv = prog.func(FIELD_VALUE)
+                o.undecided(fv, fv.node, 'linked id', "neither __get_linked_task_id nor an inlined linked-id expression found")
+            for g, node, v, tp, lp in H['inline']:
+                st = {'none': False, 'sentinel': False, 'ext': 0, 'int': 0}
+                link_expr(o, g, node, v, [], tp, lp, st)
+                link_finish(o, g, node, lp, st)
+            return
+        f = H['one']
+        tp, lp = f.params[0], f.params[1]
+        cfg = cfg_of(f)
+        ex = Expander(prog, f, ctx.typer)
+        st = {'none': False, 'sentinel': False, 'ext': 0, 'int': 0}
         rets = [n for n in walk_no_nested(f.node) if isinstance(n, ast.Return)]
         for r in rets:
             rn = cfg.node_of(r)
@@ -2117,85 +2199,42 @@ def _links(ctx):
             if r.value is None:
                 o.refute(f, r, r, "a link is printed as None")
                 continue
-            v = ex.expand(r.value, rn)
-            for cs, parts in cases_of(v):
-                conds = conds0 + cs
-                if not parts:
-                    for t, p in conds:
-                        for a, ap in split_disj(t, p):
-                            if is_none_atom(a, ap) is True:
-                                guards['none'] = r
-                            if is_sentinel_atom(a, ap) is True:
-                                guards['sentinel'] = r
-                    continue
-                head = parts[0]
-                m = match("str($x)", head)
-                if m:
-                    head = m['x']
-                if match(f"{tp}.id", head):
-                    o.refute(f, r, parts[0], f"the column prints `{src(head)}` - the id of the printed task itself, not of the linked task")
-                    continue
-                if not match(f"{lp}.id", head):
-                    o.undecided(f, r, r, f"returned text `{src(v)[:80]}` does not start with the linked task's id")
-                    continue
-                tail = [const_str(p) for p in parts[1:]]
-                if any(x is None for x in tail):
-                    o.undecided(f, r, r, f"returned text `{src(v)[:80]}` has non-constant parts after the id")
-                    continue
-                marker = ''.join(tail)
-                if marker not in ('', '(external)'):
-                    o.refute(f, r, marker, f"the id is followed by {marker!r}; expected '(external)' or nothing")
-                    continue
-                atoms = []
-                for t, p in conds:
-                    atoms += facts.split_conj(t, p)
-                rest = [(a, p) for a, p in atoms if is_none_atom(a, p) is not False and is_sentinel_atom(a, p) is not False]
-                nes = [ne_atom(a, p) for a, p in rest]
-                others = [(a, p) for (a, p), n in zip(rest, nes) if n is None]
-                ctext = ' and '.join(facts.cond_texts(rest)) or 'always'
-                want = marker == '(external)'
-                kind = 'ext' if want else 'int'
-                if others or not nes or any(n is not want for n in nes):
-                    exp = f"{lp}.wbs != {tp}.wbs" if want else f"{lp}.wbs == {tp}.wbs"
-                    what = "with the '(external)' marker" if want else "without the '(external)' marker"
-                    extra = (" (additional condition: " + ', '.join(facts.cond_texts(others)) + ")") if others and any(n is want for n in nes) else ''
-                    o.refute(f, r, f"{kind}: {ctext}", f"the linked id is printed {what} under `{ctext}`{extra}; expected exactly `{exp}`")
-                    seen[kind] += 1
-                    continue
-                seen[kind] += 1
-                o.site(f, r, f"{'id(external)' if want else 'id'} under {ctext}")
-        if not seen['ext'] and seen['int']:
-            o.refute(f, f.node, 'no marker', "no return path appends '(external)': links that leave the WBS are not marked")
-        if not seen['int'] and seen['ext']:
-            o.refute(f, f.node, 'always marker', "no return path prints the bare id: links inside the WBS are marked as external")
-        if not seen['ext'] and not seen['int'] and not o.unknown and not o.refuted:
-            o.undecided(f, f.node, f.name, "no return of the linked id found")
-        if guards['none']:
-            o.site(f, guards['none'], "'' for a None link")
-        else:
-            o.refute(f, f.node, 'None link', f"no `return ''` guarded by `{lp} is None`: a task without parent cannot be printed")
-        if guards['sentinel']:
-            o.site(f, guards['sentinel'], "'' for the sentinel (EMPTY_TASK_ID) parent")
-        else:
-            o.refute(f, f.node, 'sentinel link', f"no `return ''` guarded by `{lp}.id == EMPTY_TASK_ID`: the hidden WBS root is printed as a parent id")
+            link_expr(o, f, r, ex.expand(r.value, rn), conds0, tp, lp, st)
+        link_finish(o, f, f.node, lp, st)
     ctx.guarded(o, one)
 
     def cols(o):
-        one_f, many, fv = prog.func(LINK_ONE), prog.func(LINK_MANY), prog.func(FIELD_VALUE)
-        one_pat = f"_Repr._Repr{one_f.name}($a, $b)"
-        many_pat = f"_Repr._Repr{many.name}($a, $b)"
+        H = _link_helpers(ctx)
+        many, fv = H['many'], prog.func(FIELD_VALUE)
+        one_pat, many_pat = H['one_pat'], H['many_pat']
+        if many is None and not H['inline_many']:
+            o.undecided(fv, fv.node, 'linked ids', "the helper that lists the linked ids (called with (t, t.predecessors)) was not found")
+            return
+
+        def as_one(xv, targets):
+            """bindings {a: task expr, b: linked expr} when xv prints one linked id"""
+            if one_pat is not None:
+                return match(one_pat, xv)
+            for tg in targets:
+                if isinstance(tg, ast.Name) and any(match(f"{tg.id}.id", x) for x in ast.walk(xv)):
+                    tname = many.params[0] if many is not None else fv.params[0]
+                    uses_task = any(match(f"{tname}.wbs", x) for x in ast.walk(xv))
+                    return {'a': ast.Name(id=tname if uses_task else '?', ctx=ast.Load()), 'b': tg}
+            return None
         # ---- list of ids
-        tp, lp = many.params[0], many.params[1]
-        cfg = cfg_of(many)
-        ex = Expander(prog, many, ctx.typer, inline=False)
-        rets = [n for n in walk_no_nested(many.node) if isinstance(n, ast.Return) and n.value is not None]
-        done = False
+        done = many is None          # folded into __get_field_value: the join is judged per column below
+        rets = []
+        if many is not None:
+            tp, lp = many.params[0], many.params[1]
+            cfg = cfg_of(many)
+            ex = Expander(prog, many, ctx.typer, inline=False)
+            rets = [n for n in walk_no_nested(many.node) if isinstance(n, ast.Return) and n.value is not None]
         if len(rets) == 1:
             m = match("$s.join($c)", ex.expand(rets[0].value, cfg.node_of(rets[0])))
             if m and isinstance(m['c'], (ast.GeneratorExp, ast.ListComp)) and len(m['c'].generators) == 1:
                 done = True
                 g = m['c'].generators[0]
-                mm = match(one_pat, m['c'].elt)
+                mm = as_one(m['c'].elt, [g.target])
                 if g.ifs:
                     o.refute(many, rets[0], m['c'], "linked ids are filtered: some links are not printed")
                 elif not (isinstance(g.iter, ast.Name) and g.iter.id == lp):
@@ -2225,7 +2264,7 @@ def _links(ctx):
                     if e is None:
                         return None
                     xv = ex.expand(e, cfg.node_containing(node))
-                    mm = match(one_pat, xv)
+                    mm = as_one(xv, [fo.target for fo in cfg.enclosing_fors(cfg.node_containing(node))])
                     if mm:
                         calls.append((node, mm))
                         return 'id'
@@ -2272,7 +2311,7 @@ def _links(ctx):
                             and (isinstance(a.ops[0], ast.In) == ap) and not keys:
                         keys = [const_str(x) for x in a.comparators[0].elts if const_str(x) in table]
             for key in keys:
-                _link_column(o, h, r, rn, key, table, found, ex, fld, t, one_pat, many_pat)
+                _link_column(o, h, r, rn, key, table, found, ex, fld, t, one_pat, many_pat, as_one)
         for k, ok in found.items():
             if not ok:
                 if any(isinstance(n, ast.Constant) and n.value == k for n in ast.walk(h.node)):
@@ -2283,6 +2322,73 @@ def _links(ctx):
                                                               f"the generic attribute lookup cannot see the relation, the column stays empty")
     ctx.guarded(o2, cols)
 
+
+
+def _link_helpers(ctx):
+    """the two helpers behind the dependency / parent columns, by anchor name or - when they were moved / renamed - by
+    following the calls `X(t, t.predecessors)` in __get_field_value and `Y(task, linked)` in X; when the one-id helper was
+    folded into its callers by the normaliser: the inlined expressions [(func, node, expr, task expr, linked expr)]"""
+    from sa.model import AnchorMissing
+    if getattr(ctx, '_c20_links', None) is not None:
+        return ctx._c20_links
+    prog = ctx.prog
+    helper = Counter(ctx)
+    fv = prog.func(FIELD_VALUE)
+    t = fv.params[0]
+    H = {'one': None, 'many': None, 'one_pat': None, 'many_pat': None, 'inline': [], 'inline_many': []}
+    try:
+        H['one'] = prog.func(LINK_ONE)
+        H['one_pat'] = f"_Repr._Repr{H['one'].name}($a, $b)"
+    except AnchorMissing:
+        pass
+    try:
+        H['many'] = prog.func(LINK_MANY)
+        H['many_pat'] = f"_Repr._Repr{H['many'].name}($a, $b)"
+    except AnchorMissing:
+        for c in [n for n in walk_no_nested(fv.node) if isinstance(n, ast.Call)]:
+            if len(c.args) == 2 and not c.keywords and match(t, c.args[0]) and match(f"{t}.predecessors", c.args[1]):
+                g = helper.target_of(c, fv)
+                if g is not None and len(g.params) == 2:
+                    H['many'], H['many_pat'] = g, src(c.func) + "($a, $b)"
+    many = H['many']
+    if many is None:
+        # folded into __get_field_value: sep.join(.. for x in t.predecessors)
+        for comp in [n for n in walk_no_nested(fv.node) if isinstance(n, (ast.ListComp, ast.GeneratorExp)) and len(n.generators) == 1]:
+            if any(match(f"{t}.predecessors", x) or match(f"{t}.successors", x) for x in ast.walk(comp.generators[0].iter)):
+                H['inline_many'].append(comp)
+                tg = comp.generators[0].target
+                if H['one'] is None and isinstance(tg, ast.Name):
+                    for c in [n for n in ast.walk(comp.elt) if isinstance(n, ast.Call)]:
+                        g = helper.target_of(c, fv)
+                        if g is not None and len(c.args) == 2 and not c.keywords and match(t, c.args[0]) and same(c.args[1], tg) and len(g.params) == 2:
+                            H['one'], H['one_pat'] = g, src(c.func) + "($a, $b)"
+    if H['one'] is None and many is not None:
+        for c in [n for n in walk_no_nested(many.node) if isinstance(n, ast.Call)]:
+            g = helper.target_of(c, many)
+            if g is not None and len(c.args) == 2 and not c.keywords and match(many.params[0], c.args[0]) and isinstance(c.args[1], ast.Name) \
+                    and len(g.params) == 2:
+                H['one'], H['one_pat'] = g, src(c.func) + "($a, $b)"
+    if H['one'] is None:
+        if many is not None:
+            cfg = cfg_of(many)
+            for c in facts.calls_named(many, 'append'):
+                if len(c.args) == 1:
+                    for fo in cfg.enclosing_fors(cfg.node_containing(c)):
+                        if isinstance(fo.target, ast.Name) and any(match(f"{fo.target.id}.id", x) for x in ast.walk(c.args[0])):
+                            H['inline'].append((many, c, c.args[0], many.params[0], fo.target.id))
+            for comp in [n for n in walk_no_nested(many.node) if isinstance(n, (ast.ListComp, ast.GeneratorExp)) and len(n.generators) == 1]:
+                tg = comp.generators[0].target
+                if isinstance(tg, ast.Name) and any(match(f"{tg.id}.id", x) for x in ast.walk(comp.elt)):
+                    H['inline'].append((many, comp, comp.elt, many.params[0], tg.id))
+        for comp in H['inline_many']:
+            tg = comp.generators[0].target
+            if isinstance(tg, ast.Name) and any(match(f"{tg.id}.id", x) for x in ast.walk(comp.elt)):
+                H['inline'].append((fv, comp, comp.elt, t, tg.id))
+        for r in [n for n in walk_no_nested(fv.node) if isinstance(n, ast.Return) and n.value is not None]:
+            if any(match(f"{t}.parent.id", x) for x in ast.walk(r.value)):
+                H['inline'].append((fv, r, r.value, t, f"{t}.parent"))
+    ctx._c20_links = H
+    return H
 
 
 def _specialise(v, fld, key):
@@ -2298,16 +2404,56 @@ def _specialise(v, fld, key):
     return Tr().visit(_copy.deepcopy(v))
 
 
-def _link_column(o, h, r, rn, key, table, found, ex, fld, t, one_pat, many_pat):
+def _link_column(o, h, r, rn, key, table, found, ex, fld, t, one_pat, many_pat, as_one=None):
     """verdict for the return r of __get_field_value that prints column `key`"""
     found[key] = True
     pat, attr = table[key]
     v = _specialise(ex.expand(r.value, rn), fld, key)
+    if pat is None and key != 'parent':
+        # the list helper is folded into this function: `sep.join(<one id> for x in t.<attr>)`
+        joins = [m for m in (match("$s.join($c)", x) for x in ast.walk(v) if isinstance(x, ast.Call)) if m
+                 and isinstance(m['c'], (ast.GeneratorExp, ast.ListComp)) and len(m['c'].generators) == 1]
+        if len(joins) != 1:
+            o.undecided(h, r, r.value, f"column `{key}` is not printed through the linked-id helpers")
+            return
+        m = joins[0]
+        g = m['c'].generators[0]
+        q = _iter_in_order(g.iter, f"{t}.{attr}")
+        mm = as_one(m['c'].elt, [g.target]) if as_one else None
+        if g.ifs:
+            o.refute(h, r, m['c'], "linked ids are filtered: some links are not printed")
+        elif q and q != 'ok':
+            o.refute(h, r, g.iter, "link loop " + q[2])
+        elif q != 'ok':
+            other = 'successors' if attr == 'predecessors' else 'predecessors'
+            if _iter_in_order(g.iter, f"{t}.{other}") == 'ok':
+                o.refute(h, r, g.iter, f"column `{key}` lists `{src(g.iter)}`; expected {t}.{attr}")
+            else:
+                o.undecided(h, r, g.iter, f"column `{key}` does not list {t}.{attr}")
+        elif not mm:
+            o.undecided(h, r, m['c'].elt, "element is not the linked-id expression of the loop variable")
+        elif not (match(t, mm['a']) and same(mm['b'], g.target)):
+            o.refute(h, r, m['c'].elt, f"ids are computed by `{src(m['c'].elt)[:80]}`, expected (printed task, linked task)")
+        elif not const_str(m['s']):
+            o.refute(h, r, m['s'], "linked ids are joined without a separator")
+        else:
+            o.site(h, r, f"{key}: <linked id of ({t}, {src(g.target)})> for {src(g.target)} in {src(g.iter)}, in order")
+            o.site(h, r, f"{key}: separator {const_str(m['s'])!r}")
+        return
+    if pat is None:
+        # the one-id helper is inlined: the expression itself is judged by links_external_iff_other_wbs
+        if any(match(f"{t}.{attr}.id", x) for x in ast.walk(v)):
+            o.site(h, r, f"{key}: inlined linked-id expression for {t}.{attr}")
+        elif any(match(f"{t}.id", x) for x in ast.walk(v)) and not any(match(f"{t}.{attr}", x) for x in ast.walk(v)):
+            o.refute(h, r, r.value, f"column `{key}` prints `{src(v)[:80]}` - the id of the printed task itself, not of {t}.{attr}")
+        else:
+            o.undecided(h, r, r.value, f"column `{key}` is not printed through the linked-id helpers")
+        return
     hits = [match(pat, x) for x in ast.walk(v) if isinstance(x, ast.Call)]
     hits = [m for m in hits if m]
     other_pat = one_pat if pat is many_pat else many_pat
     if not hits:
-        if any(match(other_pat, x) for x in ast.walk(v) if isinstance(x, ast.Call)):
+        if other_pat is not None and any(match(other_pat, x) for x in ast.walk(v) if isinstance(x, ast.Call)):
             o.refute(h, r, r.value, f"column `{key}` is printed by the wrong helper: `{src(v)[:80]}`")
         else:
             o.undecided(h, r, r.value, f"column `{key}` is not printed through the linked-id helpers")
